@@ -3,6 +3,7 @@ package main
 import (
 	"fmt"
 	"go/constant"
+	"go/token"
 	"os"
 	"strings"
 
@@ -114,7 +115,7 @@ func ruleC14WaitBeforePost(c *Ctx) {
 		})
 		direct := false
 		allInstrs(ex, func(_ *ssa.BasicBlock, in ssa.Instruction) {
-			if call, ok := in.(*ssa.Call); ok && call.Common().StaticCallee() != nil && call.Common().StaticCallee().Name() == "exec" {
+			if call, ok := in.(*ssa.Call); ok && call.Common().StaticCallee() != nil && fnShort(call.Common().StaticCallee()) == "exec" {
 				direct = true
 			}
 		})
@@ -538,7 +539,7 @@ func ruleC14NestedWaits(c *Ctx) {
 		}
 		var nested []*ssa.Call
 		allInstrs(f, func(_ *ssa.BasicBlock, in ssa.Instruction) {
-			if call, ok := in.(*ssa.Call); ok && call.Common().StaticCallee() != nil && call.Common().StaticCallee().Name() == "exec" {
+			if call, ok := in.(*ssa.Call); ok && call.Common().StaticCallee() != nil && fnShort(call.Common().StaticCallee()) == "exec" {
 				// receiver is not the function's own receiver/parameter query (recursion on a copy counts as nested too)
 				recv := NewTB().Of(call.Common().Args[0])
 				if strings.Contains(recv.String(), "Prepare(") || strings.Contains(recv.String(), "CopyQuery(") {
@@ -634,8 +635,8 @@ func ruleC14NestedWaits(c *Ctx) {
 			c.Check(len(why) == 0, "c07.nested-discipline", key, c.P.Pos(call.Pos()), "post-processors handed over; nested wait group chained", strings.Join(why, "; "))
 		}
 	}
-	if n < 3 {
-		c.Unknown("c07.nested-discipline", "nested-exec-sites", "-", fmt.Sprintf("only %d nested exec sites found (derived table, subquery, EXISTS expected)", n))
+	if n < 1 {
+		c.Unknown("c07.nested-discipline", "nested-exec-sites", "-", fmt.Sprintf("only %d nested exec sites found (EXISTS expected; derived tables and subqueries run to completion, c12.exec-callers)", n))
 	}
 }
 
@@ -1086,7 +1087,7 @@ func ruleC14NestedFailureWaits(c *Ctx) {
 	}
 	n := 0
 	for _, f := range c.P.ModFuncs {
-		if len(f.TypeArgs()) > 0 || f.Name() == "execAndPostProcess" {
+		if len(f.TypeArgs()) > 0 || fnShort(f) == "execAndPostProcess" {
 			continue
 		}
 		var sites []*ssa.Call
@@ -1138,7 +1139,7 @@ func ruleC14NestedFailureWaits(c *Ctx) {
 			c.Check(ok, "c14.nested-failure-waits", key, c.P.Pos(site.Pos()), fmt.Sprintf("%d failure paths await the nested wait group", k), why)
 		}
 	}
-	if n < 3 {
+	if n < 1 {
 		c.Unknown("c14.nested-failure-waits", "sites", "-", fmt.Sprintf("only %d nested exec sites found", n))
 	}
 }
@@ -1201,7 +1202,12 @@ func ruleC14AwaitWaits(c *Ctx) {
 	}
 }
 
-func init() { register("C14", ruleC14DrainAfterRun); register("C12", ruleC14DrainAfterRun) }
+func init() {
+	register("C14", ruleC14DrainAfterRun)
+	register("C12", ruleC14DrainAfterRun)
+	// a post-processor left in the list writes, on the next Exec, into rows another goroutine may be reading
+	register("C13", ruleC14DrainAfterRun)
+}
 
 // ruleC14DrainAfterRun: pending post-processors are only ever dropped after they have run.
 func ruleC14DrainAfterRun(c *Ctx) {
@@ -1266,10 +1272,81 @@ func ruleC14DrainAfterRun(c *Ctx) {
 					}
 				})
 			}
-			c.Check(after, "c14.drain-after-run", key, c.P.Pos(st.Pos()), "behind the loop that runs the post-processors", "the pending post-processors are dropped at a point that is not behind the loop that runs them")
+			if !after {
+				// detach form: the list is taken out of the query first (`pending := query.postProcessors;
+				// query.postProcessors = fresh`) and the loop runs the copy that was taken — nothing is thrown away unrun
+				for _, lp := range rangeLoops(f) {
+					ld, isLd := lp.over.(*ssa.UnOp)
+					if !isLd || ld.Op != token.MUL {
+						continue
+					}
+					fa2, isFA := ld.X.(*ssa.FieldAddr)
+					if !isFA || fieldName(fa2.X.Type(), fa2.Field) != "postProcessors" {
+						continue
+					}
+					loadedBefore := false
+					if ld.Block() == b {
+						for _, x := range b.Instrs {
+							if x == ssa.Instruction(ld) {
+								loadedBefore = true
+							}
+							if x == ssa.Instruction(st) {
+								break
+							}
+						}
+					} else if ld.Block().Dominates(b) {
+						loadedBefore = true
+					}
+					if loadedBefore && b.Dominates(lp.header) {
+						after = true
+					}
+				}
+			}
+			c.Check(after, "c14.drain-after-run", key, c.P.Pos(st.Pos()), "behind the loop that runs the post-processors (or the list is detached and the detached copy is run)", "the pending post-processors are dropped at a point that is not behind the loop that runs them")
 		})
 	}
 	if n == 0 {
 		c.Unknown("c14.drain-after-run", "resets", "-", "anchor lost: nothing empties the list of post-processors (exec's early run is expected to)")
 	}
+	// run once: the entry that runs a query to completion leaves no post-processor behind that already ran (or whose
+	// rows were never handed out). They capture the rows of that execution; kept in the list, the next Exec of the same
+	// Query runs them again — writing into rows the caller already owns and re-launching the calls behind AWAIT.
+	post := c.P.Method(modPath, "Query", "execAndPostProcess")
+	if post == nil {
+		c.Unknown("c14.drain-after-run", "(*Query).execAndPostProcess/run-once", "-", "anchor lost")
+		return
+	}
+	c.Fn("(*Query).execAndPostProcess")
+	paths, err := WalkFunc(post, WalkCfg{MaxVisits: 2, MaxPaths: 4000})
+	if err != nil {
+		c.Unknown("c14.drain-after-run", "(*Query).execAndPostProcess/run-once", c.P.Pos(post.Pos()), err.Error())
+		return
+	}
+	var why []string
+	nRet := 0
+	for _, p := range paths {
+		if p.Exit != "return" || len(p.Ret) != 2 {
+			continue
+		}
+		ran, cleared := false, false
+		for _, e := range p.Effects {
+			if e.Kind == "call" && e.Callee == "dyn" && len(e.Args) == 1 && strings.Contains(e.Args[0].String(), "postProcessors") {
+				ran = true
+			}
+			if e.Kind == "store" && len(e.Args) == 2 && e.Args[0].Op == "field" && e.Args[0].Name == "postProcessors" {
+				cleared = true
+			}
+		}
+		nRet++
+		switch {
+		case p.Ret[1].Nil && !cleared:
+			why = append(why, "a successful run returns with the post-processors it ran still in the query's list")
+		case !p.Ret[1].Nil && ran && !cleared:
+			why = append(why, "a run that failed in a post-processor leaves the ones that already ran in the list")
+		}
+	}
+	if nRet == 0 {
+		why = append(why, "no return path")
+	}
+	c.Check(len(why) == 0, "c14.drain-after-run", "(*Query).execAndPostProcess/run-once", c.P.Pos(post.Pos()), "the post-processors of an execution are out of the list when it returns", strings.Join(uniq(why), "; ")+": a second Exec of the same Query runs them again (it rewrites rows already handed out, and AWAIT launches the earlier rows' calls again)")
 }
